@@ -242,10 +242,11 @@ class Topology(ABC):
         """
         if name not in self.nodes.keys():
             raise TopologyException(f'Node {name} is not in this topology.')
+        # resolve the node before anything is changed (the lookup raises if the name is ambiguous)
+        node_id = self._get_node_by_name(name=name).node_id
         self._disconnect_interfaces(self.nodes[name].interface_list)
 
-        self.graph_model.remove_network_node_with_components_nss_cps_and_links(
-            node_id=self._get_node_by_name(name=name).node_id)
+        self.graph_model.remove_network_node_with_components_nss_cps_and_links(node_id=node_id)
 
     def add_facility(self, *, name: str, node_id: str = None, site: str,
                      nstype: ServiceType = ServiceType.VLAN,
